@@ -106,6 +106,9 @@ def _init_worker(modname):
     _MOD = importlib.import_module(modname)
 
 
+_WORKER_HISTORY = []
+
+
 def _work(item):
     idx, level, desc = item
     t0 = time.time()
@@ -114,6 +117,12 @@ def _work(item):
     except Exception:
         r = new_result()
         r["harness_error"] = traceback.format_exc()
+    for v in r["violations"][:3]:
+        v["shard"] = _j(desc)
+        v["worker_history"] = [_j(d) for d in _WORKER_HISTORY]      # the shards this worker process ran before, in order
+    for v in r["violations"][3:]:
+        v["shard"] = _j(desc)
+    _WORKER_HISTORY.append(desc)
     r["level"] = level
     r["idx"] = idx
     r["t"] = time.time() - t0
@@ -223,7 +232,7 @@ def run_property(modname, tier, seed, nproc=None):
             seen.add(h)
             v["_hash"] = h
             uniq.append(v)
-    uniq.sort(key=lambda v: (len(json.dumps(v["case"], default=repr)), v["_hash"]))
+    uniq.sort(key=lambda v: (0 if "worker_history" in v else 1, len(json.dumps(v["case"], default=repr)), v["_hash"]))
     total_viol = int(agg["extra"].get("violations_total", 0))
 
     complete_levels = [lv for lv in levels if agg["levels"][lv]["done"] == agg["levels"][lv]["shards"]]
@@ -306,7 +315,7 @@ def run_property(modname, tier, seed, nproc=None):
         for v in uniq[:10]:
             path = os.path.join(rdir, v["_hash"] + ".json")
             vv = {k: v[k] for k in v if k != "_hash"}
-            vv["property"] = pid
+            vv["property"] = pid     # (the file also carries the shard descriptor, used when the case alone does not reproduce)
             with open(path, "w") as f:
                 json.dump(vv, f, indent=1, sort_keys=True, default=repr)
             v["_path"] = path
@@ -315,9 +324,26 @@ def run_property(modname, tier, seed, nproc=None):
             rc = subprocess.run([sys.executable, os.path.join(VERIF, "mc", "cli.py"), "--replay", v["_path"], "--quiet"],
                                 capture_output=True, text=True)
             if rc.returncode != 1:
-                print("NONDETERMINISM: case %s failed in the explorer but not on replay (rc=%d)\n%s" % (
-                    v["_path"], rc.returncode, rc.stdout[-2000:] + rc.stderr[-2000:]))
-                return 2
+                # not reproducible from the single input: the answer may depend on what the process analysed before.
+                # Re-run the whole shard (a deterministic sequence of inputs) in a fresh interpreter.
+                with open(v["_path"]) as f:
+                    vv = json.load(f)
+                vv["history_dependent"] = True
+                with open(v["_path"], "w") as f:
+                    json.dump(vv, f, indent=1, sort_keys=True, default=repr)
+                rc2 = subprocess.run([sys.executable, os.path.join(VERIF, "mc", "cli.py"), "--replay", v["_path"], "--quiet"],
+                                     capture_output=True, text=True)
+                if rc2.returncode != 1 and vv.get("worker_history") is not None:
+                    vv["history_dependent"] = "worker"
+                    with open(v["_path"], "w") as f:
+                        json.dump(vv, f, indent=1, sort_keys=True, default=repr)
+                    rc2 = subprocess.run([sys.executable, os.path.join(VERIF, "mc", "cli.py"), "--replay", v["_path"], "--quiet"],
+                                         capture_output=True, text=True)
+                if rc2.returncode != 1:
+                    print("NONDETERMINISM: case %s failed in the explorer but neither alone, nor as part of its shard, nor after the shards its worker had "
+                          "run before (rc=%d/%d)\n%s" % (v["_path"], rc.returncode, rc2.returncode, rc2.stdout[-2000:] + rc2.stderr[-2000:]))
+                    return 2
+                v["msg"] = "[only after earlier inputs - the answer depends on the history of the process] " + v["msg"]
         for v in uniq[:10]:
             print("  [%s] %s expected=%s observed=%s" % (v["subcheck"], v["msg"][:300],
                                                         str(v["expected"])[:120], str(v["observed"])[:120]))
@@ -333,6 +359,12 @@ def run_property(modname, tier, seed, nproc=None):
     return 0
 
 
+def _tuplify(x):
+    if isinstance(x, list):
+        return tuple(_tuplify(v) for v in x)
+    return x
+
+
 def replay_file(path, quiet=False):
     ensure_repo_import()
     from . import findings as fnd
@@ -340,7 +372,19 @@ def replay_file(path, quiet=False):
         v = json.load(f)
     pid = v["property"]
     mod = importlib.import_module("props." + pid.lower())
-    vs = mod.replay(v["case"])
+    if v.get("history_dependent"):
+        # replay the whole shard (the deterministic sequence of inputs that preceded the failing one) and look for the same case;
+        # in "worker" mode first re-run the shards the worker process had handled before, in the same order
+        if v.get("history_dependent") == "worker":
+            for d in v.get("worker_history") or []:
+                mod.run_shard(_tuplify(d))
+        r = mod.run_shard(_tuplify(v["shard"]))
+        key = json.dumps(_j(v["case"]), sort_keys=True, default=repr)
+        vs = [x for x in r["violations"] if json.dumps(_j(x["case"]), sort_keys=True, default=repr) == key]
+        if not vs:
+            vs = [x for x in r["violations"] if x["subcheck"] == v["subcheck"]][:1]
+    else:
+        vs = mod.replay(v["case"])
     same = [x for x in vs if x["subcheck"] == v["subcheck"]]
     if not quiet:
         print("replay %s: property=%s subcheck=%s" % (path, pid, v["subcheck"]))
